@@ -34,7 +34,7 @@ def run(prog, world, sem, rep):
     rep.rule("C08.b", "a history entry is stored with released = true only when it exists, its time <= now - Parameters.unbonding_period, and it "
              "was read as not released (all in-loop effects of the releasing loop are behind these three observations)", 3)
     rep.rule("C08.c", "CurrentBatch.id only ever changes by the roll-over's +1 (every writer of CURRENT_BATCH outside instantiate preserves it or "
-             "stores the rolled-over value); the roll-over sets State.last_unbonded_time := Env.block.time", 2)
+             "stores the rolled-over value); the roll-over sets State.last_unbonded_time := Env.block.time and records the same time in the history entry it creates", 3)
     rep.rule("C08.d", "the history map has exactly two kinds of reachable writers: the roll-over (new key = CurrentBatch.id, released = false) and the "
              "releaser, which rewrites the key it just read with released = true and its amounts/applied rates/time unchanged; "
              "State.last_processed_batch is only assigned that key", 6)
@@ -116,6 +116,10 @@ def run(prog, world, sem, rep):
     def plab(x):
         l = sem.label(x)
         return l[4] if l is not None and l[0] == "param" else None
+    # the time-lock counts from the entry's own undelegation: History.time is the time of this roll-over
+    tl = sem.label(d["time"]) if "time" in d else None
+    rep.ob("C08.c", "history entry time = Env.block.time of the roll-over", tl == ("env", "block", "time"),
+           "History.time recorded from %s (the unbonding period must count from this undelegation)" % (tl if tl is not None else show(d.get("time"), 3),), where(ro_body, bb0))
     for tk, req in (("bsei", "requested_bsei_with_fee"), ("stsei", "requested_stsei")):
         rate = ("%s_exchange_rate" % tk,)
         ok = plab(d["%s_applied_exchange_rate" % tk]) == rate and plab(d["%s_withdraw_rate" % tk]) == rate
